@@ -56,6 +56,15 @@ impl H {
 
 fn main() {
     let args: Vec<String> = std::env::args().collect();
+    if args.len() >= 3 && args[1] == "c07child" {
+        let v = if args[2] == "sha" {
+            gen::gen_misc::child_values::<zkryptium::bbsplus::ciphersuites::Bls12381Sha256>()
+        } else {
+            gen::gen_misc::child_values::<zkryptium::bbsplus::ciphersuites::Bls12381Shake256>()
+        };
+        println!("{}", v.join(" "));
+        return;
+    }
     if args.len() >= 2 && args[1] == "consts" {
         consts::print();
         return;
